@@ -328,6 +328,18 @@ pub fn run(ctx: &Ctx) -> Verdict {
     )
         .prop_map(|(s, t, o)| steer(s, &t, &o));
     v.subs.push(vcore::run_proptest(ctx, "steered", n, strat, check));
+    // long clause lists (real tuples of up to 16 clauses): an expectation is lost if its clause is
+    let mut cw = cfg();
+    cw.max_clauses = 16;
+    cw.max_stub_pats = 2;
+    cw.methods = vec![0, 1, 2, 4];
+    let wide = (gen::scenario(cw), vec(any::<u8>(), 64), vec(any::<u8>(), 128)).prop_map(|(s, t, o)| steer(s, &t, &o));
+    v.subs.push(vcore::run_proptest(ctx, "wide-clause-lists", n / 4, wide, |scn| {
+        check(scn).map(|i| {
+            let k = scn.clauses.len();
+            i.class_if(k >= 9, "clause-tuple-arity>=9").class_if(k >= 13, "clause-tuple-arity>=13")
+        })
+    }));
     v.subs.push(vcore::run_enumerated(ctx, "boundary-grid", grid(), |cell| {
         check(&grid_scenario(cell)).map(|i| CaseInfo::new(true).class_if(!i.classes.is_empty(), i.classes[0]))
     }));
